@@ -146,7 +146,10 @@ func r08_9(c *Ctx, r *Report) {
 			}
 			ev := &evaluator{leaf: leaf, inline: inlineLibrary}
 			fr := &evalFrame{fn: fn, phiFrom: map[*ssa.BasicBlock]*ssa.BasicBlock{}}
-			_, outcome := ev.runFrame(fr, nil, func(b *ssa.BasicBlock) bool { return b == stop })
+			outcome := fmt.Sprintf("stop:%d", stop.Index)
+			if stop != fn.Blocks[0] {
+				_, outcome = ev.runFrame(fr, nil, func(b *ssa.BasicBlock) bool { return b == stop })
+			}
 			cases++
 			var key string
 			if a.keyLen == 3 {
